@@ -318,7 +318,14 @@ fn darray_cases(r: &mut Rng, t: Tier, extra: &[&str], n_cases: usize, out: &mut 
                 } else {
                     1024
                 };
-                let kind = if plan.ends_with('c') { 1 } else { r.below(5) };
+                let mut kind = if plan.ends_with('c') { 1 } else { r.below(5) };
+                let mut cnt = cnt;
+                if last && kind != 1 && r.chance(1, 3) {
+                    // partial last group whose last element starts a sub-block (length = 1 mod 32)
+                    // and whose span sits exactly on the dense/sparse threshold
+                    kind = 2;
+                    cnt = 32 * (r.range(1, 31) as usize) + 1;
+                }
                 match kind {
                     0 => {
                         // dense: consecutive or small gaps
@@ -392,12 +399,17 @@ fn darray_cases(r: &mut Rng, t: Tier, extra: &[&str], n_cases: usize, out: &mut 
         c.tag(format!("s0={}", s0 as u8));
         c.nontrivial = ps.len() > 1024;
         c.l("cfg 256 0 8 * u8");
-        if i % 3 == 0 {
+        let zero_plan = s0 && i % 4 == 3;
+        if zero_plan {
+            // the plan describes the ZERO positions: select0 sees the planned groups
+            c.tag("zero_plan".to_string());
+            c.l(format!("mk 0 bvzpos {} {}", n.max(ps.last().map(|x| x + 1).unwrap_or(0)), join(&ps)));
+        } else if i % 3 == 0 {
             c.l(format!("mk 0 bvpos {}", join(&ps)));
         } else {
             c.l(format!("mk 0 bvbits {} {}", n.max(ps.last().map(|x| x + 1).unwrap_or(0)), join(&ps)));
         }
-        let nn = if i % 3 == 0 { ps.last().map(|x| x + 1).unwrap_or(0) } else { n.max(ps.last().map(|x| x + 1).unwrap_or(0)) };
+        let nn = if i % 3 == 0 && !zero_plan { ps.last().map(|x| x + 1).unwrap_or(0) } else { n.max(ps.last().map(|x| x + 1).unwrap_or(0)) };
         c.l(format!("mk 1 da {} 0", s0 as u8));
         for e in extra {
             c.l(e.to_string());
@@ -405,35 +417,33 @@ fn darray_cases(r: &mut Rng, t: Tier, extra: &[&str], n_cases: usize, out: &mut 
         for op in ["len", "count_ones", "count_zeros"] {
             c.l(format!("q 1 {}", op));
         }
-        let n1 = ps.len();
-        let mut ks: Vec<usize> = vec![0, 1, n1.saturating_sub(1), n1, n1 + 1, usize::MAX];
-        for g in 0..=(n1 / 1024) {
-            for d in [0usize, 1, 31, 32, 33, 1023] {
-                ks.push(g * 1024 + d);
-            }
-        }
-        for _ in 0..60 {
-            ks.push(r.below(n1 as u64 + 1) as usize);
-        }
-        ks.sort();
-        ks.dedup();
-        for &k in &ks {
-            c.l(format!("q 1 select1 {}", k));
-        }
-        if s0 {
-            let n0 = nn - n1;
-            let mut ks: Vec<usize> = vec![0, 1, n0.saturating_sub(1), n0, n0 + 1, usize::MAX];
-            for g in 0..=(n0 / 1024).min(80) {
+        let (n1, n0) = if zero_plan { (nn - ps.len(), ps.len()) } else { (ps.len(), nn - ps.len()) };
+        let mut sel_ks = |r: &mut Rng, cnt: usize, planned: bool| -> Vec<usize> {
+            let mut ks: Vec<usize> = vec![0, 1, cnt.saturating_sub(1), cnt, cnt + 1, usize::MAX];
+            for g in 0..=(cnt / 1024).min(if planned { usize::MAX } else { 80 }) {
                 for d in [0usize, 1, 31, 32, 33, 1023] {
                     ks.push(g * 1024 + d);
                 }
             }
             for _ in 0..60 {
-                ks.push(r.below(n0 as u64 + 1) as usize);
+                ks.push(r.below(cnt as u64 + 1) as usize);
+            }
+            if planned {
+                // every sub-block start of the last (possibly partial) group
+                let lg = (cnt.saturating_sub(1) / 1024) * 1024;
+                for k in (lg..cnt).step_by(32) {
+                    ks.push(k);
+                }
             }
             ks.sort();
             ks.dedup();
-            for &k in &ks {
+            ks
+        };
+        for k in sel_ks(r, n1, !zero_plan) {
+            c.l(format!("q 1 select1 {}", k));
+        }
+        if s0 {
+            for k in sel_ks(r, n0, zero_plan) {
                 c.l(format!("q 1 select0 {}", k));
             }
         }
